@@ -13,6 +13,15 @@ SeqsThorough ==
                   <<"ymin", "xmax", "xmin">>, <<"ymin", "ymax", "xmin", "xmax">>}
 SeqsTiny == {<<"xmin">>, <<"ymax">>, <<"xmin", "xmax", "ymin", "ymax">>}
 
+TargetsQuick    == {<<0, 0, 0, 0>>, <<1, 1, 1, 1>>, <<0, 0, 2, 2>>, <<1, 1, 0, 0>>}
+TargetsThorough == TargetsQuick \cup {<<0, 0, 1, 1>>, <<1, 1, 2, 2>>, <<2, 2, 1, 1>>, <<0, 1, 1, 1>>, <<1, 1, 1, 2>>, <<2, 2, 0, 0>>}
+\* lattices on which a target can lie strictly inside, with every single site and some rectangles
+SizesAround   == {<<4, 4>>, <<3, 4>>, <<4, 3>>}
+TargetsAround == {<<0, 0, 0, 0>>} \cup {<<i, i, j, j>> : i \in 0..3, j \in 0..3} \cup
+                 {<<1, 2, 1, 1>>, <<1, 1, 1, 2>>, <<2, 2, 0, 1>>, <<0, 1, 2, 2>>, <<1, 2, 2, 3>>, <<2, 3, 1, 1>>}
+SeqsAround == {<<"xmin", "xmax", "ymin", "ymax">>, <<"ymax", "ymin", "xmax", "xmin">>, <<"ymin", "ymax", "xmin", "xmax">>,
+               <<"ymax", "xmin">>, <<"xmin", "xmax">>, <<"ymax", "ymin">>, <<"ymax">>, <<"xmax", "ymax", "ymin">>}
+
 ModesAll == {"late", "early", "via1d", "proj", "fullbond"}
 LayAll   == {"flat", "all", "kb", "bk"}
 TasksAll == {"contract", "around", "envs"}
